@@ -54,10 +54,34 @@ def cases(tier, seed):
     # circumferential series long enough for the ring loads' quadrature to matter (the class default is n2 = 45)
     for model, load in itertools.product(['clpt_donnell_bc3', 'clpt_donnell_bc4'], ['T', 'Fc', 'forces']):
         out.append(dict(kind='load', model=model, alpha=0., pdC=0, pdT=0, load=load, inc=1.0, n2=38, m2=1, seed=seed))
+    # single perturbation loads added as the very first call on a shell defined through its height H
+    for model, alpha in itertools.product(['clpt_donnell_bc1', 'clpt_donnell_bc3'], [0., 25., -15.]):
+        out.append(dict(kind='spl_first', model=model, alpha=alpha, seed=seed))
     # axial line load with higher harmonics, given at definition or edited in place after an evaluation
     for model, alpha in itertools.product(['clpt_donnell_bc2', 'clpt_donnell_bc4'], [0., 25.]):
         out.append(dict(kind='nxx_inplace', model=model, alpha=alpha, seed=seed))
     return out
+
+
+def check_spl_first(case):
+    fails = []
+
+    def mk():
+        return rs.shell_of(dict(model=case['model'], alphadeg=case['alpha'], m1=2, m2=2, n2=3, s=40))
+    a = mk()
+    a.add_SPL(12.0, pt=0.37, thetadeg=40.0)               # first call on the new object
+    a.add_SPL(5.0, pt=0.8, thetadeg=-110.0, increment=True)
+    fa = np.asarray(a.calc_fext(inc=0.6, silent=True), dtype=float)
+    b = mk()
+    L = b.H / np.cos(np.deg2rad(case['alpha']))            # meridional length of the declared geometry (r2, H, alpha)
+    b.add_force(0.37 * L, 40.0, 0., 0., -12.0, increment=False)
+    b.add_force(0.8 * L, -110.0, 0., 0., -5.0, increment=True)
+    fb = np.asarray(b.calc_fext(inc=0.6, silent=True), dtype=float)
+    sc = np.abs(fb).max() + 1e-300
+    if fa.shape != fb.shape or np.abs(fa - fb).max() > 1e-12 * sc:
+        fails.append(fail('perturbation loads added first on a shell defined through H are not the point forces at pt times the meridional length',
+                          sig=None, case=case, rel=float(np.abs(fa - fb).max() / sc) if fa.shape == fb.shape else None))
+    return dict(fails=fails, execs=2, transitions=2, nontrivial=1)
 
 
 def check_nxx_inplace(case):
@@ -296,4 +320,4 @@ def check_load(case):
 
 
 def check_case(case):
-    return dict(geom=check_geom, partition=check_partition, load=check_load, nxx_inplace=check_nxx_inplace)[case['kind']](case)
+    return dict(geom=check_geom, partition=check_partition, load=check_load, nxx_inplace=check_nxx_inplace, spl_first=check_spl_first)[case['kind']](case)
